@@ -137,7 +137,20 @@ def check_assumptions(check, module, theorems):
         ok = "Closed under the global context" in txt
         check.obligation("theorem %s (Qed, closed under the global context)" % t, ok, txt)
         ok_all &= ok
+    if check.tier == "thorough":
+        ok_all &= coqchk(check, module)
     return ok_all
+
+
+def coqchk(check, module):
+    """thorough tier: the compiled property file and everything it depends on, re-checked by the independent checker; -o lists the axioms"""
+    with Lock("coq"):
+        p = run(["coqchk", "-silent", "-o", "-Q", ".", "VGW", "VGW." + module], cwd=COQ, timeout=3000, check=False, quiet=True)
+    out = (p.stdout + p.stderr).decode("latin1")
+    ok = p.returncode == 0 and "Axioms: <none>" in " ".join(out.split()) and "type-in-type: <none>" in " ".join(out.split())
+    check.checker_cmds.append("coqchk -silent -o -Q . VGW VGW.%s" % module)
+    check.obligation("coqchk re-checks %s and its dependencies: no axioms, no type-in-type, no assumed positivity / guardedness" % module, ok, out[-1500:])
+    return ok
 
 
 def ensure_built(check, targets=None):
